@@ -114,6 +114,7 @@ relativized on decoding and re-encoded against the same origin, so they no longe
 text of the wire form parses back to the value.  The two hypotheses are the C02 wire round trip of the type. -/
 theorem generic_form_known (tn : String) (sch : Schema) (hsch : schemaOf tn = some sch) (st : Style) (env : PEnv)
     (vals : List FV) (tail : Option FV) (w : Bytes) (hw : ∀ x ∈ w, x < 256) (hc : ChunkOk st.hexChunk st.hexSep)
+    (hwire : sch.wire = true)
     (henc : encRec tn sch (wireOrigin env) vals tail = some w)
     (hdec : decRec tn sch w (wireOrigin env) = some (vals, tail)) :
     fromTextRdata (some tn) env (printGeneric st w) = some (.known vals tail) := by
@@ -123,7 +124,7 @@ theorem generic_form_known (tn : String) (sch : Schema) (hsch : schemaOf tn = so
   have hstart : isGenericStart ([⟨.ident, [92, 35]⟩, ⟨.ident, natToDec w.length⟩] ++
       identToks (wordbreakChunks (hexlify w) st.hexChunk)) = true := by
     simp [isGenericStart]
-  simp only [hsch, hstart, if_true, parseGeneric_tokens w hw st.hexChunk, hdec, henc]
+  simp only [hsch, hstart, if_true, hwire, Bool.not_true, Bool.false_eq_true, if_false, parseGeneric_tokens w hw st.hexChunk, hdec, henc]
 
 /-- non-vacuity of the encode hypothesis on the former failing input (`MX 10 m` relative to `ex.`, i.e. the wire form of
 `10 m.ex.` read with origin `ex.`): the relativized name re-encodes to the given octets.  (The decode hypothesis runs
@@ -151,7 +152,7 @@ every field within its range, names legal and printed/parsed in a configuration 
 character-strings of any octets within their length limits, blobs non-empty, chunking lossless, and the
 constructor's own validation. -/
 def WfText (tn : String) (st : Style) (env : PEnv) (vals : List FV) (tail : Option FV) : Prop :=
-  ∃ sch, schemaOf tn = some sch ∧ FieldsOk st env sch.fields vals ∧ TailOk st vals sch.tail tail ∧ (sch.tail = .bitmap → sch.fields ≠ []) ∧
+  ∃ sch, schemaOf tn = some sch ∧ FieldsOk st env sch.fields vals ∧ TailOk st env vals sch.tail tail ∧ (sch.tail = .bitmap → sch.fields ≠ []) ∧
     sch.check vals tail = true
 
 /-- "for every implemented record type and every well-formed value, the text form parses back to an equal record: with
@@ -179,6 +180,7 @@ def kindProved : FK → Bool
   | .uint _ | .ttl | .algo | .name | .ip4 | .ip6 | .salt | .oct16 | .eui _ | .hex16x4 | .nsap => true
   | .cstr _ _ _ => true
   | .rdtype | .algoName | .scheme | .ctype | .keyFlags | .keyProto | .sigtime | .b32hex => true
+  | .hexOne | .b64One | .nameRaw | .rcode => true
 
 /-- the record types whose every field kind is covered by `parseText_printText` -/
 def provedTypes : List String :=
@@ -186,7 +188,8 @@ def provedTypes : List String :=
    "TXT", "SPF", "AVC", "NINFO", "RESINFO", "WALLET", "HINFO", "X25", "ISDN", "NAPTR", "CAA", "URI", "DS", "DLV", "CDS",
    "TLSA", "SMIMEA", "SSHFP", "ZONEMD", "DNSKEY", "CDNSKEY", "DHCID", "OPENPGPKEY", "BRID", "HHIT", "L32", "NSEC3PARAM",
    "CH-A", "EUI48", "EUI64", "NID", "L64", "NSAP",
-   "CERT", "DSYNC", "KEY", "RRSIG", "SIG", "NSEC", "CSYNC", "NSEC3"]
+   "CERT", "DSYNC", "KEY", "RRSIG", "SIG", "NSEC", "CSYNC", "NSEC3",
+   "HIP", "TKEY", "TSIG"]
 
 /-- every type in `provedTypes` has a schema made of proved field kinds only (complete finite table, by `decide`) -/
 theorem provedTypes_covered :
